@@ -24,6 +24,8 @@ def run(prog, chk):
         "collapse_varscalar only collapses when all values agree; get_userspace_location maps design to user space and keys by axis tag (R10.5)",
         "_featuresCompatible: all masters' feature text equals the default's, or only the default has any (R10.6)",
     ]
+    chk.decided += ["every designspace source ends up with a name of its own (renamed while the name is None or already used): the per-name tables of the variable pipeline never merge two masters (R10.10)"]
+    chk.decided += ["TrueType composites whose component 2x2 differs between masters are decomposed (gvar cannot vary a component's scale): the comparison covers all masters for every composite (R10.9 = R09.1)"]
     chk.decided += ["an existing mark class definition only stands for a (variable) anchor that equals it field by field (shared with C06) (R10.8)"]
     chk.decided += ["for a designspace the kerning groups are collected from every source's font, not from one master (a class pair of a master whose group the others lack keeps its value) (R10.7)"]
     chk.not_decided += ["gvar / HVAR / GPOS variation data computed by fontTools.varLib and feaLib", "numeric reproduction of the masters"]
@@ -36,6 +38,9 @@ def run(prog, chk):
     chk.guard(r107, prog, chk)
     from .c06 import r0618
     chk.guard(r0618, prog, chk, "R10.8")
+    from .c09 import check_nonmatching_components
+    chk.guard(check_nonmatching_components, prog, chk, "R10.9")
+    chk.guard(r1010, prog, chk)
 
 
 def _source_loops(prog, f: FuncInfo) -> List[ast.For]:
@@ -424,7 +429,39 @@ def r107(prog, chk):
     chk.minimum("R10.7", 2)
 
 
+# ----------------------------------------------------------------------------- R10.10
+def r1010(prog, chk):
+    ix = prog.ix
+    f = ix.get_func("ufo2ft.util:ensure_all_sources_have_names")
+    sts = [(s_, t, v) for s_, t, v in attr_stores(f, "name")]
+    need(len(sts) == 1, f"cannot interpret {f.short}: renaming store")
+    s_, t, v = sts[0]
+    src = T(t.value)
+    wl = [a for a in ix.ancestors(s_) if isinstance(a, ast.While)]
+    ok = len(wl) == 1
+    if ok:
+        from ..core.cfg import nnf
+        tst = nnf(wl[0].test)
+        lits = tst.values if isinstance(tst, ast.BoolOp) and isinstance(tst.op, ast.Or) else []
+        has_none = any(A.compare_parts(x) and isinstance(A.compare_parts(x)[1], ast.Is) and T(A.compare_parts(x)[0]) == f"{src}.name" and A.is_const(A.compare_parts(x)[2], None) for x in lits)
+        used = [A.compare_parts(x)[2] for x in lits if A.compare_parts(x) and isinstance(A.compare_parts(x)[1], ast.In) and T(A.compare_parts(x)[0]) == f"{src}.name"]
+        ok = len(lits) == 2 and has_none and len(used) == 1
+        if ok:
+            # every final name is recorded in that set, for every source
+            adds = [c for c in calls_named(f, "add") if T(c.func.value) == T(used[0]) and c.args and T(c.args[0]) == f"{src}.name"]
+            loops = [a for a in ix.ancestors(s_) if isinstance(a, ast.For)]
+            ok = len(adds) == 1 and bool(loops) and T(loops[-1].iter).endswith(".sources") and any(a is loops[-1] for a in ix.ancestors(adds[0])) \
+                and not any(isinstance(a, (ast.If, ast.While)) for a in ix.ancestors(adds[0]))
+    chk.ob("R10.10", f"{f.short}|a source is renamed while its name is None or already taken; every final name is recorded", ok, where(f, s_), detail="while source.name is None or source.name in used_names: ...; used_names.add(source.name)",
+           message=f"{f.short}: sources can keep a missing or duplicate name: the tables keyed by source name (compiled masters, original UFOs, glyph sets) then hold one entry for two masters")
+    chk.minimum("R10.10", 1)
+
+
 MUTANTS = [
+    M("sources only renamed when the name is both missing and taken (mutation scan 4, k=118)", "ufo2ft/util.py", "ensure_all_sources_have_names",
+      "source.name is None or source.name in used_names", "source.name is None and source.name in used_names", rule="R10.10"),
+    M("2x2 mismatch check skipped when the first master's components are all plain (seeded C10k)", "ufo2ft/preProcessor.py", "TTFInterpolatablePreProcessor.check_for_nonmatching_components",
+      "if not any(component_counts):\n    continue", "if not any(component_counts):\n    continue\nif all((c.transformation[0:4] == (1, 0, 0, 1) for c in layers[0].components)):\n    continue", rule="R10.9"),
     M("user-space location computed axis by axis, coordinate 0 taken for 'missing' (seeded C10i)", "ufo2ft/util.py", "get_userspace_location",
       "location_user = designspace.map_backward(location)\nreturn {designspace.getAxis(k).tag: v for k, v in location_user.items()}",
       "location_user = {}\nfor axis in designspace.axes:\n    value = location.get(axis.name) or axis.map_forward(axis.default)\n    location_user[axis.tag] = axis.map_backward(value)\nreturn location_user", rule="R10.5"),
